@@ -449,7 +449,8 @@ def run_e2e_program(chk, pi, worlds, judge, stats, neg=False):
             k = (w.gid, idx)
             e = expect[k]
             det = {"binding": "e2e", "program": pi, "world": w.gid, "variant": w.variant, "ref": idx, "from": r["from"],
-                 "entity": r["ent"], "expected": e, "reached": got.get(k)}
+                 "entity": r["ent"], "expected": e, "reached": got.get(k), "probe_in_package_%s" % r["from"]: w.call(r["ent"], r["from"]),
+                   "seed": C.seed()}
             if k not in got:
                 # the process died inside this reference: judge it, the references after it were never executed
                 det["died"] = True
@@ -513,7 +514,7 @@ def check(chk):
     stats["llgo_build_s"] = []
     stats["e2e_died"] = []
     # worlds: the same references rendered in different layouts
-    n_ip = 24 if thorough else 5
+    n_ip = 24 if thorough else 4
     ip_worlds = []
     for i in range(n_ip):
         v = dict(VARIANTS[i % len(VARIANTS)])
@@ -522,7 +523,7 @@ def check(chk):
     # stop the link of a whole end-to-end program)
     ip_worlds.append(G.World("w%d" % n_ip, refs, "%d/dotted" % sd, dict(DOTTED)))
     n_prog = 4 if thorough else 1
-    per_prog = 2
+    per_prog = 2 if thorough else 1
     if os.environ.get("VERIF_C14_SKIP_E2E") == "1":      # diagnostic knob (mutation experiments): in-process binding only
         n_prog = 0
     programs = []
